@@ -106,7 +106,7 @@ def fidelity(run, rule, db, f, site_cls, roles=None, allow_multi=False, expect_k
                         continue   # node request expressed as an array of one element (type-erased interface)
                     if r == 'size' and 'count' in fc.args and 'count' not in froles:
                         # node request split into an array: count must be ceil(size / a)
-                        if fc.args['count'] in fwd.ceil_div_forms('$size', a):
+                        if fwd.is_ceil_div(fc.args['count'], '$size', a, s.conds):
                             continue
                         problems.append('request of $size bytes becomes %s x %s: the count is not a ceiling division' % (fc.args['count'], a))
                         continue
@@ -114,7 +114,7 @@ def fidelity(run, rule, db, f, site_cls, roles=None, allow_multi=False, expect_k
                 elif r == 'count' and 'size' in froles and 'count' not in froles:
                     if a == '1' and fc.args.get('size') == '$size':
                         continue   # a node is an array of one element (type-erased interface)
-                    if a in fwd.ceil_div_forms('$size', fc.args.get('size', '?')):
+                    if fwd.is_ceil_div(a, '$size', fc.args.get('size', '?'), s.conds):
                         continue
                     problems.append('request of $size bytes becomes %s x %s: the count is not a ceiling division' % (a, fc.args.get('size')))
             if 'count' in froles and 'count' not in fc.args and fc.args.get('size') == '$size':
